@@ -348,8 +348,11 @@ class Gen:
             return bytes(r.getrandbits(8) for _ in range(s["size"]))
         if t == "array":
             n = self.coll_size(depth)
+            as_tuple = self.opt["tuple_seq"] and r.random() < self.opt.get("tuple_rate", 0.1)
+            if as_tuple and r.random() < 0.5:
+                n = 2        # a two-element tuple has the shape of a (name, value) hint
             xs = [self.datum(s["items"], ctx, ns, depth - 1) for _ in range(n)]
-            if self.opt["tuple_seq"] and r.random() < 0.1:
+            if as_tuple:
                 return tuple(xs)
             return xs
         if t == "map":
